@@ -40,18 +40,30 @@ func (t *TransactionBase) Success() {
 	t.mutex.Lock()
 	defer t.mutex.Unlock()
 
-	t.finish()
+	t.finish(nil)
 }
 
+// A finished transaction stays finished: the first Success or Fail call
+// decides the result, subsequent calls are no-ops.
+//
 // You must acquire write lock on t.mutex before calling this function!
-func (t *TransactionBase) finish() {
+func (t *TransactionBase) finish(e error) {
+	if t.isDone() {
+		return
+	}
+	t.err = e
 	if t.finally != nil {
 		t.finally()
 	}
+	close(t.done)
+}
+
+func (t *TransactionBase) isDone() bool {
 	select {
 	case <-t.done:
+		return true
 	default:
-		close(t.done)
+		return false
 	}
 }
 
@@ -68,6 +80,5 @@ func (t *TransactionBase) Fail(e error) {
 	t.mutex.Lock()
 	defer t.mutex.Unlock()
 
-	t.err = e
-	t.finish()
+	t.finish(e)
 }
